@@ -155,7 +155,58 @@ def replay_reply_elements(model, obligation):
                 rerun="contracts.logix_common.run_reply_elements(%r)" % (vals,))
 
 
-def reply_elements_spec(name='Logix.reply_elements', ensures=True, refuses=True, accepts=True):
+def re_data(ctx):
+    """the request record seen by reply_elements for service context `ctx`: data.service is the
+    reply code, data[ctx] holds the optional elements/offset/max_size fields and the write data"""
+    def build(eng, name, st):
+        st = st.clone()
+        rid, sid = eng.new_id(), eng.new_id()
+
+        def opt(nm):
+            isn = z3.Bool(nm + '.is_none')
+            eng.init_vals[nm] = UnionV([(isn, NONE), (z3.Not(isn), IntV(z3.Int(nm)))])
+            return (z3.Not(isn), IntV(z3.Int(nm)))
+        sub = {'elements': opt('_g_elements'), 'offset': opt('_g_off'), 'max_size': opt('_g_max_size')}
+        nd = z3.Int('_g_ndata')
+        eng.init_vals['_g_ndata'] = IntV(nd)
+        from pyvc.vals import ListV
+        sub['data'] = (z3.BoolVal(True), ListV(nd, lambda i: IntV(z3.Int('_g_wd')), tag='write data'))
+        for k, pv in sub.items():
+            st.heap[(sid, k)] = pv
+        st.heap[(sid, '__closed__')] = True
+        st.heap[(sid, '__keys__')] = tuple(sub.keys())
+        svc = {'read_tag': RD_TAG, 'read_frag': RD_FRG, 'write_tag': WR_TAG, 'write_frag': WR_FRG}[ctx]
+        from pyvc.vals import OpaqueV, USort, RefV
+        top = {'service': (z3.BoolVal(True), IntV(svc)),
+               'path': (z3.BoolVal(True), OpaqueV(z3.Const('_g_path', USort), 'path')),
+               ctx: (z3.BoolVal(True), RefV(sid, 'rec'))}
+        for k, pv in top.items():
+            st.heap[(rid, k)] = pv
+        st.heap[(rid, '__closed__')] = True
+        st.heap[(rid, '__keys__')] = tuple(top.keys())
+        eng.init_vals['_g_service'] = IntV(svc)
+        eng.tracked_refs.add(rid)
+        return RefV(rid, 'rec'), st
+    return build
+
+
+def reply_elements_spec(name='Logix.reply_elements', ensures=True, refuses=True, accepts=True, ctx=None):
+    """ctx None: the env-style contract (used as callee contract and for the lemmas);
+    ctx given: the same contract with `data` modelled as a real record for that service"""
+    if ctx is not None:
+        env = {"resolve_element(data.path)": "(_g_idx,)",
+               "attribute.parser.struct_calcsize": "_g_siz",
+               "len(attribute)": "_g_cnt",
+               "self.MAX_BYTES": "_g_MAX_BYTES"}
+        return Spec(
+            '%s[%s]' % (name, ctx), ("server/enip/logix.py", "Logix.reply_elements"),
+            params={'data': re_data(ctx), 'context': ('Const', ctx), '_g_idx': 'Int', '_g_cnt': 'Int', '_g_siz': 'Int', '_g_MAX_BYTES': 'Int'},
+            env=env, requires=RE_REQUIRES, defs=dict(RE_DEFS),
+            ensures=RE_ENSURES if ensures else [], raises={"AssertionError": "True"},
+            refuses=RE_REFUSES if refuses else [], accepts=RE_ACCEPTS if accepts else [],
+            pure_on_raise=True, modifies=[], replay=replay_reply_elements,
+            note='whole function; the request is a record with optional elements/offset/max_size fields; env models only for '
+                 'resolve_element(data.path), len(attribute), attribute.parser.struct_calcsize, self.MAX_BYTES')
     return Spec(
         name, ("server/enip/logix.py", "Logix.reply_elements"),
         params=dict(RE_PARAMS), env=dict(RE_ENV), requires=RE_REQUIRES, defs=dict(RE_DEFS),
